@@ -50,10 +50,20 @@ func (c *ServerCookie) Encode() []byte {
 func (c *ServerCookie) Decode(b []byte) error {
 	pos := 0
 	algo, s2c, c2s := false, false, false
-	for pos < len(b) {
+	n := len(b)
+	for pos < n {
+		if n-pos < 4 {
+			return errUnexpectedCookieData
+		}
 		t := binary.BigEndian.Uint16(b[pos:])
 		len := binary.BigEndian.Uint16(b[pos+2:])
+		if n-pos-4 < int(len) {
+			return errUnexpectedCookieData
+		}
 		if t == cookieTypeAlgorithm {
+			if len < 2 {
+				return errUnexpectedCookieData
+			}
 			c.Algo = binary.BigEndian.Uint16(b[pos+4:])
 			algo = true
 		} else if t == cookieTypeKeyS2C {
@@ -102,10 +112,20 @@ func (c *EncryptedServerCookie) Encode() []byte {
 func (c *EncryptedServerCookie) Decode(b []byte) error {
 	pos := 0
 	id, nonce, ciphertext := false, false, false
-	for pos < len(b) {
+	n := len(b)
+	for pos < n {
+		if n-pos < 4 {
+			return errUnexpectedCookieData
+		}
 		t := binary.BigEndian.Uint16(b[pos:])
 		len := binary.BigEndian.Uint16(b[pos+2:])
+		if n-pos-4 < int(len) {
+			return errUnexpectedCookieData
+		}
 		if t == cookieTypeKeyID {
+			if len < 2 {
+				return errUnexpectedCookieData
+			}
 			c.ID = binary.BigEndian.Uint16(b[pos+4:])
 			id = true
 		} else if t == cookieTypeNonce {
